@@ -31,6 +31,14 @@ checks = {
    technique="exhaustive table enumeration on the discovered 2D lattice through the real renderers + bounded analytic families",
    text="Through the real uniform and quadtree marching-squares renderers (segments collected via sdf.NewLine2Buffer): all 7^4 tables over {-1,-1/4,-1e-13,0,1e-13,1/4,1} of a free cell, both adjacent-pair orientations x 5^6 (thorough 7^6) tables, all 2^16 sign tables of a 4x4 corner block, position-coded fields (all corner values distinct incl. the boundary rows) on 4 lattices x 5 patterns. Oracle: welded (1e-6 cell) end points have even degree (exactly 2 or 4 without degenerate values), no zero-length segment, every end point is the independently computed linear zero crossing of a straddling edge of the discovered lattice. Analytic: lines in 48 directions x 3 offsets (exact), circles within h^2/(8(R-h)), boxes; sampled area covers the box; perimeter error ratio >= 3 per doubling on 8..64 (256).",
    note="segment orientation is not part of the property and is not checked (the pristine tables are not consistently oriented)"),
+ "C11": dict(engine="S", design="3/C11",
+   technique="stateless model checking of the real code under a controlled scheduler (preemption-bounded DFS over schedules), reference = written sequence",
+   text="The real Triangle3Buffer/Line2Buffer, sdf.WriteTriangles, render.ToTriangles, ToSTL and ToSVG (sync, channels and go statements rewritten onto the cooperative scheduler by a type-checked source rewrite that refuses unknown constructs) driven by scripted producers emitting numbered items from a reused, poisoned scratch slice: every sequence of <=2 (3 thorough) Write calls over batch sizes {0,1,2,5,T-1,T,T+1,2T-1,2T,2T+3}, one producer under ALL interleavings with the consumer, two producers (7x7 batch plans) under all schedules with <=2 (3) preemptions, three producers (thorough). Oracle per execution: delivered sequence == written sequence (P=1), multiset + per-producer order (P>1), STL count field/length, no deadlock/panic/left-over goroutine.",
+   note="interleavings at synchronisation operations only (sufficient for race-free code; races are C10); 3MF/DXF content is C15, their termination C12"),
+ "C12": dict(engine="S", design="3/C12",
+   technique="stateless model checking under a controlled scheduler x exhaustive fault-plan enumeration on an in-memory file system; deadlock detection instead of timeouts",
+   text="render.ToSTL on the in-memory file system under every fault plan (create / seek / header-rewrite / close failure; a byte limit at 0,1,83,84,85, around every 4096-byte flush boundary, size-50, size-1) x item counts {0,1,81,300,700} x all schedules with <=2 preemptions; ToSVG (create/limit), To3MF and ToDXF against a nonexistent directory, /dev/full and a writable path; the real uniform and octree renderers (1-2 workers) into the collector and a failing STL sink. 'Never returns' = deadlock (main unfinished, no enabled thread). Goroutine accumulation = census of threads still parked after k=1..4 consecutive renders must not grow with k.",
+   note="I/O failure modelled as error returns of Create/Write/Seek/Close; kernel signal behaviour outside the model"),
 }
 props = [json.loads(l) for l in open(os.path.join(V, "properties.jsonl"))]
 pending_reason = "check not built yet in this session (work in progress, see DESIGN.md section 3 for the planned bounded-exhaustive check)"
